@@ -30,7 +30,14 @@ type ByName []HashPair
 
 func (a ByName) Len() int           { return len(a) }
 func (a ByName) Swap(i, j int)      { a[i], a[j] = a[j], a[i] }
-func (a ByName) Less(i, j int) bool { return a[i].Key.Inspect() < a[j].Key.Inspect() }
+func (a ByName) Less(i, j int) bool {
+	x, y := a[i].Key.Inspect(), a[j].Key.Inspect()
+	if x != y {
+		return x < y
+	}
+	// Keys of different types may print alike, e.g. 1 and "1".
+	return a[i].Key.Type() < a[j].Key.Type()
+}
 
 // Hash wrap map[HashKey]HashPair and implements Object interface.
 type Hash struct {
